@@ -20,9 +20,10 @@ type effKind int
 const (
 	effTag effKind = iota
 	effConv
+	effMerge
 )
 
-var effName = map[effKind]string{effTag: "tag-work", effConv: "converter-work"}
+var effName = map[effKind]string{effTag: "tag-work", effConv: "converter-work", effMerge: "merge-work"}
 
 func ruleC09(p *Prog, r *Res) {
 	ctx := p.Contexts()
@@ -233,11 +234,22 @@ func ruleC09(p *Prog, r *Res) {
 		effTag:  p.Method("manager", "Manager", "startTaggingJobIfNeeded"),
 		effConv: p.Method("manager", "Manager", "startConverterJobIfNeeded"),
 	}
+	// the merge trigger waits for its own job and for the tagging and converter jobs (its entry guard): whoever clears
+	// one of these flags lets a merge that is due start, and has to ask for it — with the converter job finishing last
+	// the service went idle with the merge rule unsatisfied, and the end state depended on the order of completions (#67)
+	kinds := []effKind{effTag, effConv}
+	if mt := p.Method("manager", "Manager", "startMergeJobIfNeeded"); mt != nil {
+		trigger[effMerge] = mt
+		kinds = append(kinds, effMerge)
+	}
 	uncertainFld := p.Field("query", "TagDetails", "Uncertain")
 	s2cFld := p.Field("manager", "Manager", "streamsToConvert")
 	flagFld := map[effKind]*types.Var{
 		effTag:  p.Field("manager", "Manager", "taggingJobRunning"),
 		effConv: p.Field("manager", "Manager", "converterJobRunning"),
+	}
+	if trigger[effMerge] != nil {
+		flagFld[effMerge] = p.Field("manager", "Manager", "mergeJobRunning")
 	}
 	if trigger[effTag] == nil || trigger[effConv] == nil || uncertainFld == nil || s2cFld == nil {
 		return
@@ -248,7 +260,7 @@ func ruleC09(p *Prog, r *Res) {
 	// needs that job's completion to call it)
 	blockers := map[effKind]map[*types.Var]bool{}
 	mgrNamed := p.Named("manager", "Manager")
-	for _, k := range []effKind{effTag, effConv} {
+	for _, k := range kinds {
 		blockers[k] = map[*types.Var]bool{}
 		if flagFld[k] != nil {
 			blockers[k][flagFld[k]] = true
@@ -387,11 +399,11 @@ func ruleC09(p *Prog, r *Res) {
 		siteStatus = map[string]string{}
 		sitePos = map[string]string{}
 		for _, f := range subjects {
-			if f == p.FnOfObj(trigger[effTag]) || f == p.FnOfObj(trigger[effConv]) {
+			if f == p.FnOfObj(trigger[effTag]) || f == p.FnOfObj(trigger[effConv]) || (trigger[effMerge] != nil && f == p.FnOfObj(trigger[effMerge])) {
 				continue
 			}
 			fl := p.Flow(f)
-			for _, k := range []effKind{effTag, effConv} {
+			for _, k := range kinds {
 				idx := 0
 				for _, b := range fl.G.Blocks {
 					if !b.Live {
